@@ -411,8 +411,27 @@ def r3_collapse(program, folder, rep):
             after_full(s_) for s_ in sets)
         test = ("binop", "BitAnd", CELL, plain(BITV))
         test2 = ("binop", "BitAnd", plain(BITV), CELL)
-        okd = any(p is False and plain(t) in (test, test2)
-                  for t, p in A.all_facts(n))
+        tests = [test, test2]
+        bv_ = plain(BITV)
+        if bv_[0] == "binop" and bv_[1] == "LShift" and \
+                bv_[2] == ("const", 1):
+            # (cell >> i) & 1 is the same bit
+            sh_ = ("binop", "RShift", CELL, bv_[3])
+            tests += [("binop", "BitAnd", sh_, ("const", 1)),
+                      ("binop", "BitAnd", ("const", 1), sh_)]
+
+        def bit_clear(t, p):
+            t = plain(t)
+            if t in tests:
+                return p is False
+            if t[0] == "cmp" and t[1] == "Eq":
+                for a_, b_ in ((t[2], t[3]), (t[3], t[2])):
+                    if a_ in tests and b_ == ("const", 0):
+                        return p is True
+                    if a_ in tests[2:] and b_ == ("const", 1):
+                        return p is False
+            return False
+        okd = any(bit_clear(t, p) for t, p in A.all_facts(n))
     okl = any((mk_cmp("Eq", LEVEL, ("const", 3)), True) in [
         (plain(t), p) for t, p in A.all_facts(s_[0])] for s_ in sets)
     flagged = any(t[0] in ("mu", "phi") for s_ in sets
